@@ -120,6 +120,9 @@ type pkgInfo struct {
 	tag        string                   // "func" for the root package, "func.<dir>" otherwise
 	fieldElem  map[string]string        // "T.f" -> element type name of the field's declared type (pointers, slices, arrays, map values unwrapped)
 	external   map[string]bool          // "T.f": the element type belongs to another package (pkg.Type)
+	chanField  map[string]bool          // field NAME whose declared type is a channel
+	spawners   map[string]bool          // function / method names that start a goroutine and do not join it
+	joiners    map[string]bool          // function / method names that receive from a channel field until it is closed
 }
 
 func typeName(e ast.Expr) string {
@@ -197,7 +200,8 @@ func load(dir string, tag string) *pkgInfo {
 	p := &pkgInfo{structs: map[string]*ast.StructType{}, interfaces: map[string]*ast.InterfaceType{},
 		methods: map[string]*ast.FuncDecl{}, byName: map[string][]string{}, mutexField: map[string]bool{},
 		globals: map[string]bool{}, funcs: map[string]*ast.FuncDecl{}, tag: tag,
-		fieldElem: map[string]string{}, external: map[string]bool{}}
+		fieldElem: map[string]string{}, external: map[string]bool{},
+		chanField: map[string]bool{}, spawners: map[string]bool{}, joiners: map[string]bool{}}
 	for _, pkg := range pkgs {
 		for _, f := range pkg.Files {
 			for _, d := range f.Decls {
@@ -220,6 +224,11 @@ func load(dir string, tag string) *pkgInfo {
 							p.structs[ts.Name.Name] = t
 							for _, fl := range t.Fields.List {
 								et := elemTypeName(fl.Type)
+								if _, isChan := fl.Type.(*ast.ChanType); isChan {
+									for _, n := range fl.Names {
+										p.chanField[n.Name] = true
+									}
+								}
 								for _, n := range fl.Names {
 									p.fieldElem[ts.Name.Name+"."+n.Name] = et
 									if strings.Contains(et, ".") {
@@ -249,7 +258,78 @@ func load(dir string, tag string) *pkgInfo {
 			}
 		}
 	}
+	p.goroutines(pkgs)
 	return p
+}
+
+// goroutines finds, structurally, the functions that leave a goroutine running when they return
+// (a go statement, or a call of such a function, without a join) and the functions that join it
+// (a range loop over a channel-typed field: it ends when the goroutine closes the channel).
+func (p *pkgInfo) goroutines(pkgs map[string]*ast.Package) {
+	type fn struct {
+		name  string
+		body  *ast.BlockStmt
+		calls map[string]bool
+		goes  bool
+		joins bool
+	}
+	var fns []*fn
+	for _, pkg := range pkgs {
+		for _, f := range pkg.Files {
+			for _, d := range f.Decls {
+				fd, ok := d.(*ast.FuncDecl)
+				if !ok || fd.Body == nil {
+					continue
+				}
+				x := &fn{name: fd.Name.Name, body: fd.Body, calls: map[string]bool{}}
+				ast.Inspect(fd.Body, func(n ast.Node) bool {
+					switch m := n.(type) {
+					case *ast.GoStmt:
+						x.goes = true
+					case *ast.RangeStmt:
+						if sel, ok := m.X.(*ast.SelectorExpr); ok && p.chanField[sel.Sel.Name] {
+							x.joins = true
+						}
+					case *ast.CallExpr:
+						switch f := m.Fun.(type) {
+						case *ast.Ident:
+							x.calls[f.Name] = true
+						case *ast.SelectorExpr:
+							x.calls[f.Sel.Name] = true
+						}
+					}
+					return true
+				})
+				fns = append(fns, x)
+			}
+		}
+	}
+	for _, x := range fns {
+		if x.joins && !x.goes {
+			p.joiners[x.name] = true
+		}
+	}
+	for changed := true; changed; {
+		changed = false
+		for _, x := range fns {
+			if p.spawners[x.name] || p.joiners[x.name] {
+				continue
+			}
+			spawns, joins := x.goes, false
+			for c := range x.calls {
+				if p.spawners[c] {
+					spawns = true
+				}
+				if p.joiners[c] {
+					joins = true
+				}
+			}
+			if spawns && !joins {
+				p.spawners[x.name] = true
+				changed = true
+			}
+		}
+	}
 }
 
 // ---- translation of one function
@@ -449,6 +529,23 @@ func (t *fnTrans) args(args []ast.Expr, sc *scope) *stmt {
 
 func (t *fnTrans) call(x *ast.CallExpr, sc *scope) *stmt {
 	args := t.args(x.Args, sc)
+	// a goroutine left running by the callee is a resource held until a joining call
+	switch f := x.Fun.(type) {
+	case *ast.Ident:
+		if _, local := sc.lookup(f.Name); !local && t.p.spawners[f.Name] {
+			return seq(args, &stmt{kind: "Acq", s1: "goroutine", flag: true})
+		}
+		if _, local := sc.lookup(f.Name); !local && t.p.joiners[f.Name] {
+			return seq(args, &stmt{kind: "Rel", s1: "goroutine", flag: true})
+		}
+	case *ast.SelectorExpr:
+		if t.p.spawners[f.Sel.Name] {
+			return seq(args, &stmt{kind: "Acq", s1: "goroutine", flag: true})
+		}
+		if t.p.joiners[f.Sel.Name] {
+			return seq(args, &stmt{kind: "Rel", s1: "goroutine", flag: true})
+		}
+	}
 	switch f := x.Fun.(type) {
 	case *ast.Ident:
 		switch f.Name {
@@ -906,8 +1003,13 @@ func loopWithBreakNeedsCare(body *ast.BlockStmt) bool {
 }
 
 func main() {
+	dirs := []string{".", "driver"}
+	if len(os.Args) >= 3 && strings.HasPrefix(os.Args[1], "-dirs=") {
+		dirs = strings.Split(strings.TrimPrefix(os.Args[1], "-dirs="), ",")
+		os.Args = append(os.Args[:1], os.Args[2:]...)
+	}
 	if len(os.Args) < 3 {
-		fmt.Fprintln(os.Stderr, "usage: lockskel <repo dir> <out.v>")
+		fmt.Fprintln(os.Stderr, "usage: lockskel [-dirs=a,b] <repo dir> <out.v>")
 		os.Exit(2)
 	}
 	repo, out := os.Args[1], os.Args[2]
@@ -920,7 +1022,7 @@ func main() {
 	var mutexPairs []string
 	methodNames := map[string]bool{}
 	var externalFields []string
-	for _, dir := range []string{".", "driver"} {
+	for _, dir := range dirs {
 		tag := "func"
 		if dir != "." {
 			tag = "func." + dir
